@@ -472,7 +472,7 @@ func (env *c16Env) run(slot int, cv *c16Conv) *c16Obs {
 		obs.labels = r.labels
 		obs.labelsOK = r.labels != nil
 		obs.key = r.key
-	case <-time.After(20 * time.Second):
+	case <-time.After(45 * time.Second):
 		obs.hung = true
 		return obs
 	}
